@@ -194,6 +194,12 @@ def itemDatumOption (L : Leaf D) : Bytes ⊕ D → Item
 /-- `if self.datum is not None or self.script is not None or self.post_alonzo:` -/
 def mapForm (o : Output A D N) : Bool := o.datum.isSome || o.script.isSome || o.postAlonzo
 
+/-- `TransactionOutput.__post_init__` (its part that concerns the codec): `if self.datum is not None or self.script is
+not None: self.post_alonzo = True` — an inline datum or a reference script exists in the map form only, so the flag
+says so.  Every constructed output (and every decoded one: the decoder goes through the constructor) is of the form
+`normOutput o`; an attribute assigned after construction is not normalised. -/
+def normOutput (o : Output A D N) : Output A D N := { o with postAlonzo := mapForm o }
+
 /-- `_TransactionOutputPostAlonzo(address, amount, datum, script_ref).to_primitive()`: keys 0, 1 and the optional 2, 3
 in declaration order -/
 def itemOutputMap (L : Leaves A D N) (o : Output A D N) : Item :=
@@ -307,14 +313,14 @@ def decOutputMapLoop (L : Leaves A D N) (acc : MapAcc A D N) : List (Item × Ite
     else .deser
 
 /-- the tail of `TransactionOutput.from_primitive` for the map form: the datum option is split into `datum_hash` /
-`datum`, and `post_alonzo` is set to "no inline datum and no script" -/
+`datum`, and `post_alonzo=True` (the output was received in the map form) -/
 def finishMap (acc : MapAcc A D N) : Res (Output A D N) :=
   match acc.addr, acc.amt with
   | some a, some v =>
     (match acc.datum with
-      | some (.inl h) => .ok ⟨a, v, some h, Option.none, acc.script, acc.script.isNone⟩
-      | some (.inr d) => .ok ⟨a, v, Option.none, some d, acc.script, false⟩
-      | Option.none => .ok ⟨a, v, Option.none, Option.none, acc.script, acc.script.isNone⟩)
+      | some (.inl h) => .ok ⟨a, v, some h, Option.none, acc.script, true⟩
+      | some (.inr d) => .ok ⟨a, v, Option.none, some d, acc.script, true⟩
+      | Option.none => .ok ⟨a, v, Option.none, Option.none, acc.script, true⟩)
   | _, _ => .crash                                                                -- TypeError: missing arguments
 
 /-- `TransactionOutput.from_primitive` -/
@@ -331,11 +337,12 @@ def decOutputBytes (L : Leaves A D N) (b : Bytes) : Res (Output A D N) :=
   | some i => decOutput L i
   | Option.none => .crash                               -- CBORDecodeError
 
-/-- what decoding an encoded output returns, for EVERY output: the amount normalised, an inline datum dropped when a
-datum hash is also set (the hash wins in `to_primitive`), and the flag recomputed from the content -/
+/-- what decoding an encoded output returns, for EVERY output (constructed or with attributes assigned later): the
+amount normalised, an inline datum dropped when a datum hash is also set (the hash wins in `to_primitive`), and the
+flag saying in which form the output was written -/
 def decodedOutput (o : Output A D N) : Output A D N :=
   let dat := if o.datumHash.isSome then Option.none else o.datum
-  ⟨o.address, normValue o.amount, o.datumHash, dat, o.script, mapForm o && dat.isNone && o.script.isNone⟩
+  ⟨o.address, normValue o.amount, o.datumHash, dat, o.script, mapForm o⟩
 
 /-! ## `TransactionBody`: decode-time normalisation of the set-valued fields
 
